@@ -21,6 +21,7 @@ use derive_more::Display;
 
 const CODE: &str = "verbatim-module-syntax";
 const FIX_DESC: &str = "Add a type keyword";
+const FIX_DESC_MOVE: &str = "Move to a type-only import";
 
 #[allow(clippy::enum_variant_names)]
 #[derive(Display)]
@@ -45,6 +46,8 @@ enum Hint {
   ChangeExportToExportType,
   #[display(fmt = "Add a `type` keyword before the identifier")]
   AddTypeKeyword,
+  #[display(fmt = "Move the identifier to an `import type` declaration")]
+  MoveToImportType,
 }
 
 #[derive(Debug)]
@@ -115,17 +118,60 @@ impl VerbatimModuleSyntax {
       );
     } else {
       for specifier in type_only_usage {
+        if let ast_view::ImportSpecifier::Named(_) = specifier {
+          context.add_diagnostic_with_fixes(
+            specifier.range(),
+            CODE,
+            Message::ImportIdentUsedInTypes,
+            Some(Hint::AddTypeKeyword.to_string()),
+            vec![LintFix {
+              description: FIX_DESC.into(),
+              changes: vec![LintFixChange {
+                new_text: "type ".into(),
+                range: specifier.start().range(),
+              }],
+            }],
+          );
+          continue;
+        }
+
+        // The inline `type` modifier exists for named specifiers only. A
+        // default or namespace binding moves to an `import type` declaration
+        // of its own: `import a, { b } from "m"` becomes
+        // `import type a from "m"` and `import { b } from "m"`.
+        // Such a binding is never alone here, so the tokens of the declaration
+        // start with `import`, the default binding and a comma.
+        let tokens = import.tokens_fast(program);
+        let removed = match specifier {
+          ast_view::ImportSpecifier::Default(_) => {
+            SourceRange::new(specifier.start(), tokens[3].start())
+          }
+          _ => SourceRange::new(tokens[2].start(), specifier.end()),
+        };
+        let source =
+          SourceRange::new(import.src.start(), import.end()).text_fast(program);
         context.add_diagnostic_with_fixes(
           specifier.range(),
           CODE,
           Message::ImportIdentUsedInTypes,
-          Some(Hint::AddTypeKeyword.to_string()),
+          Some(Hint::MoveToImportType.to_string()),
           vec![LintFix {
-            description: FIX_DESC.into(),
-            changes: vec![LintFixChange {
-              new_text: "type ".into(),
-              range: specifier.start().range(),
-            }],
+            description: FIX_DESC_MOVE.into(),
+            changes: vec![
+              LintFixChange {
+                new_text: format!(
+                  "import type {} from {}\n",
+                  specifier.text_fast(program),
+                  source
+                )
+                .into(),
+                range: import.start().range(),
+              },
+              LintFixChange {
+                new_text: "".into(),
+                range: removed,
+              },
+            ],
           }],
         );
       }
